@@ -130,6 +130,17 @@ MUTANTS = [
     ("root_bytes_head_counter", "blake3.c",
      "    out_len -= bytes;\n    output_block_counter += 1;", "    out_len -= bytes;",
      ["output_root_bytes_fn"], "after a partial leading block the block counter is not advanced: the next block repeats it"),
+    ("xof_portable_upper_half", "blake3_portable.c",
+     "store32(&out[8 * 4], state[8] ^ cv[0]);", "store32(&out[8 * 4], state[0] ^ cv[0]);",
+     ["blake3_compress_xof_portable_fn"], "as seed C06-5: a word of the upper half of the XOF block is fed forward from the lower state half"),
+    ("in_place_portable_feedforward", "blake3_portable.c",
+     "cv[3] = state[3] ^ state[11];", "cv[3] = state[3] ^ state[12];",
+     ["blake3_compress_in_place_portable_fn"], "one word of the new cv is fed forward from the wrong state word"),
+    ("tbb_right_window_cacheline", "blake3.c",
+     "  uint8_t *right_cvs = &cv_array[degree * BLAKE3_OUT_LEN];",
+     "#if defined(BLAKE3_USE_TBB)\n  uint8_t *right_cvs = &cv_array[(degree * BLAKE3_OUT_LEN + 63) & ~(size_t)63];\n#else\n"
+     "  uint8_t *right_cvs = &cv_array[degree * BLAKE3_OUT_LEN];\n#endif",
+     ["blake3_compress_subtree_wide_tbb"], "as seed C08-4: TBB build starts the right CV window on a cache line: with degree 1 the CV pair is no longer contiguous"),
     ("finalize_parent_without_key", "blake3.c",
      "    output = parent_output(parent_block, self->key, self->chunk.flags);",
      "    output = parent_output(parent_block, self->chunk.cv, self->chunk.flags);",
@@ -156,6 +167,9 @@ MUTANTS_THOROUGH = [
     ("update_counter_increment", "blake3.c",
      "    self->chunk.chunk_counter += subtree_chunks;", "    self->chunk.chunk_counter += 1;",
      ["blake3_hasher_update_base"], "chunk counter advanced by 1 instead of the subtree's chunk count: byte total and stack shape broken"),
+    ("update_shrink_test", "blake3.c",
+     "while ((((uint64_t)(subtree_len - 1)) & count_so_far) != 0) {", "while ((((uint64_t)subtree_len) & count_so_far) != 0) {",
+     ["blake3_hasher_update_base"], "seed C06-4: the shrink loop tests subtree_len instead of subtree_len - 1: subtrees start at unaligned chunk indices"),
     ("xof_many_counter_not_incremented", "blake3_dispatch.c",
      "counter + i, flags, out + 64*i);", "counter, flags, out + 64*i);",
      ["blake3_xof_many_fn"], "the portable xof_many fallback repeats block `counter` outblocks times"),
